@@ -17,6 +17,7 @@ full-strength statement for the pinned variant on a concrete input.
 -/
 import Olla.Model.AnthropicStream
 import Olla.Spec.C13
+import Olla.Spec.State
 
 namespace Olla.Props.C13
 open Olla.Model.AnthropicStream Olla.Spec.C13
@@ -1002,5 +1003,14 @@ example : wellFormed [.msgStart "m" 0, .msgDelta "end_turn" 0 0, .msgStop] = tru
 example : orderly false [.chunk { tools := some [⟨0, "", "", "{}"⟩] }] = false ∧
     framed (run fixed [.chunk { tools := some [⟨0, "", "", "{}"⟩] }]) = true ∧
     wellFormed (run fixed [.chunk { tools := some [⟨0, "", "", "{}"⟩] }]) = false := by decide
+
+/-! ### tie: no process-wide state on the modelled path
+
+The theorems above are about single calls (or the history of one object). They cover every
+request of a running process only if a call reaches no state that outlives it besides that
+object. `Olla.Gen.State` is re-read from the source on every run: the package-level variables
+reachable from each function inside its package that the package changes after initialisation. -/
+theorem C13_tie_no_process_wide_state :
+    Olla.Spec.State.reachesOnly "handlers.proxyHandler" [] = true := by decide
 
 end Olla.Props.C13
